@@ -37,6 +37,9 @@ CHECKS = {
  "C12": dict(engine="H", tech=H, ref="DESIGN.md §3 C12",
    text="Per queue type (q.Q, async.Q, mux.Q, mq.MQ, SyncQueue, PriQueue) and capacity: plain enumeration of all sequences of non-blocking calls to depth 5 quick / 7 thorough without merging, plus breadth-first with merging on the list-model state to depth 10/14; after every step the result, IsClosed/IsCleared/Len and a complete drain of a replayed copy are compared with a list model (two lists for MQ, stable priority order for PriQueue).",
    note="only calls that cannot block are issued; try-close on a closed / try-clear on a cleared queue may answer either way; PriQueue capacity 0 left out"),
+ "C04": dict(engine="H", tech=H, ref="DESIGN.md §3 C04",
+   text="Breadth-first to a fixpoint over all operation sequences (Set/SetIfAbsent/SetAndGetRemoved x 3 keys x sizes 0,1,2,5, Get/Peek/Exist/Delete, Clear, SetCapacity 0,1,3,4) on the real cache.LRUCache and tiny.LRUCache; state key = (recency order, entry weights, capacity) = the complete observable state; every call result, Keys, Items (value identity), Stats and Size<=Capacity compared with a slice-based ideal LRU after every step. Wide variants (1,2,3 shards, modulo/xxhash) against one ideal LRU per shard, all keys probed after every step.",
+   note="SetIfAbsent on a present key may or may not refresh recency; the concurrent clause is covered by the engine-S scenarios listed in DESIGN.md once built"),
 }
 NA = {}
 
